@@ -37,8 +37,17 @@ func c01lRun(t *testing.T, out *vh.Out, op string) {
 	forms := toks[10]
 	drops := strings.Split(toks[11], ",")
 
-	port := vsmtp.FreePort()
-	raw, err := vsmtp.StartRawLMTP("127.0.0.1:" + port)
+	// other test processes run on this machine: a port that was free a moment ago may be somebody's
+	// source port by now, so ask again instead of giving up (a harness failure hides the case)
+	var port string
+	var raw *vsmtp.RawLMTP
+	var err error
+	for try := 0; try < 50; try++ {
+		port = vsmtp.FreePort()
+		if raw, err = vsmtp.StartRawLMTP("127.0.0.1:" + port); err == nil {
+			break
+		}
+	}
 	if err != nil {
 		t.Fatal(err)
 	}
